@@ -1,0 +1,43 @@
+//go:build verif
+
+// Contracts for the gocv verifier (comment-only file; see /verif/DESIGN.md §4).
+package server_handler
+
+//@ import dns "github.com/miekg/dns"
+//@ import query_context "github.com/IrineSistiana/mosdns/v5/pkg/query_context"
+
+//@ type EntryHandler
+//@   immutable opts
+
+// a well-formed client query (C03): QR clear, one question, no answer/authority, at most one additional
+//@ spec func validQuery(q *dns.Msg) bool = !q.Response && len(q.Question) == 1 && len(q.Answer) + len(q.Ns) == 0 && len(q.Extra) <= 1
+
+//@ func getValidUDPSize [C03]
+//@   ensures opt == nil ==> result == 512
+//@   ensures opt != nil ==> result == ite(opt.Hdr.Class < 512, 512, opt.Hdr.Class)
+
+// packMsgPayload is the transport's packer (pool.PackBuffer / PackTCPBuffer)
+//@ func paramfn:Handle.packMsgPayload
+//@   log pack
+//@   modifies *
+
+// Handle (C03, C15): malformed queries get no reply; a well-formed query gets exactly one packed
+// reply that carries the query's ID and question, QR and RA, SERVFAIL if the chain erred, REFUSED
+// if it left no answer; the response OPT is re-attached iff the client sent one; over UDP the reply
+// is truncated to max(512, advertised size) as the last step before packing.
+//@ func (h *EntryHandler) Handle [C03, C15]
+//@   requires h != nil && q != nil && h.opts.Entry != nil && h.opts.Logger != nil && okRRs(q.Extra) && (len(q.Extra) == 1 && isOPT(q.Extra[0]) ==> true)
+//@   modifies *
+//@   ensures !old(validQuery(q)) ==> result == nil && calls(pack) == 0 && calls(entryExec) == 0
+//@   ensures old(validQuery(q)) ==> calls(NewContext) == 1 && arg(NewContext, 0, 0) == q && calls(entryExec) == 1 && arg(entryExec, 0, 2) == ret(NewContext, 0) && calls(pack) == 1
+//@   ensures old(validQuery(q)) ==> atcall(pack, 0, arg(pack, 0, 0) != nil && arg(pack, 0, 0).Id == old(q.Id) && arg(pack, 0, 0).Response && arg(pack, 0, 0).RecursionAvailable && len(arg(pack, 0, 0).Question) == 1 && arg(pack, 0, 0).Question[0] == old(q.Question[0]))
+//@   ensures old(validQuery(q)) && ret(entryExec, 0) != nil ==> atcall(pack, 0, arg(pack, 0, 0).Rcode == 2)
+//@   ensures old(validQuery(q)) && ret(entryExec, 0) == nil && aftercall(entryExec, 0, ret(NewContext, 0).resp == nil) ==> atcall(pack, 0, arg(pack, 0, 0).Rcode == 5)
+//@   ensures old(validQuery(q)) && ret(entryExec, 0) == nil && aftercall(entryExec, 0, ret(NewContext, 0).resp != nil) ==> arg(pack, 0, 0) == aftercall(entryExec, 0, ret(NewContext, 0).resp)
+//@   ensures old(validQuery(q)) && serverMeta.FromUDP ==> calls(Truncate) == 1 && arg(Truncate, 0, 0) == arg(pack, 0, 0) && callpos(Truncate, 0) + 1 == callpos(pack, 0)
+//@   ensures old(validQuery(q)) && serverMeta.FromUDP ==> arg(Truncate, 0, 1) == ite(aftercall(NewContext, 0, ret(NewContext, 0).clientOpt == nil), 512, ite(aftercall(NewContext, 0, ret(NewContext, 0).clientOpt.Hdr.Class) < 512, 512, aftercall(NewContext, 0, ret(NewContext, 0).clientOpt.Hdr.Class)))
+//@   ensures old(validQuery(q)) && !serverMeta.FromUDP ==> calls(Truncate) == 0
+//@   ensures old(validQuery(q)) ==> (ret(pack, 0, 1) == nil ==> result == ret(pack, 0, 0)) && (ret(pack, 0, 1) != nil ==> result == nil)
+//@   ensures[C15] old(validQuery(q)) && aftercall(NewContext, 0, ret(NewContext, 0).clientOpt == nil) ==> atcall(pack, 0, noOPT(arg(pack, 0, 0).Extra))
+//@   ensures[C15] old(validQuery(q)) && aftercall(NewContext, 0, ret(NewContext, 0).clientOpt != nil) ==> atcall(pack, 0, len(arg(pack, 0, 0).Extra) >= 1 && isOPT(arg(pack, 0, 0).Extra[len(arg(pack, 0, 0).Extra) - 1]) && arg(pack, 0, 0).Extra[len(arg(pack, 0, 0).Extra) - 1].val == aftercall(NewContext, 0, ret(NewContext, 0).respOpt) && (forall k int :: 0 <= k && k < len(arg(pack, 0, 0).Extra) - 1 ==> !isOPT(arg(pack, 0, 0).Extra[k])))
+//@   ensures[C03] old(validQuery(q)) && serverMeta.FromUDP ==> atcall(pack, 0, arg(pack, 0, 0).Extra) == aftercall(Truncate, 0, arg(Truncate, 0, 0).Extra) && atcall(pack, 0, arg(pack, 0, 0).Answer) == aftercall(Truncate, 0, arg(Truncate, 0, 0).Answer) && atcall(pack, 0, arg(pack, 0, 0).Ns) == aftercall(Truncate, 0, arg(Truncate, 0, 0).Ns) && atcall(pack, 0, arg(pack, 0, 0).Truncated) == aftercall(Truncate, 0, arg(Truncate, 0, 0).Truncated)
